@@ -240,7 +240,11 @@ VH_MAIN
             /* entries selected by the mask get fixed generic values: they feed the value tests that decide segment shapes */
             /* (pinned through an assumption rather than written as a literal: cbmc would fold literal arithmetic in IEEE
                double precision, which is not the exact arithmetic the query is decided in) */
-            if ((VH_CONCRETE_MASK >> (i + j * N)) & 1UL) { aval[nnz] = vh_double(); vh_assume(aval[nnz] == (double)(2 + ((i * 7 + j * 3) % 5)) + (double)(i + 1) / 8.0); } else
+            if ((VH_CONCRETE_MASK >> (i + j * N)) & 1UL) { aval[nnz] = vh_double();
+#ifndef VH_CBMC   /* native replay: a pinned entry takes its pinned value */
+                aval[nnz] = (double)(2 + ((i * 7 + j * 3) % 5)) + (double)(i + 1) / 8.0;
+#endif
+                vh_assume(aval[nnz] == (double)(2 + ((i * 7 + j * 3) % 5)) + (double)(i + 1) / 8.0); } else
 #endif
             aval[nnz] = vh_double(); Ad[i][j] = aval[nnz]; ++nnz; } } }
     colptr[N] = nnz;
